@@ -21,7 +21,7 @@ func (x *xtr) co(n ast.Node, v xval, ty *xty) string {
 		if ty.k == kAny {
 			return "Go.Any.nil"
 		}
-		if ty.k == kErrOpt {
+		if ty.k == kErrOpt || ty.k == kOpt {
 			return "none"
 		}
 	case kErr:
@@ -125,6 +125,12 @@ func (x *xtr) expr(e ast.Expr) xval {
 		switch t.Op {
 		case token.NOT:
 			return xval{s: "!" + paren(x.co(e, v, tBoolx)), ty: tBoolx}
+		case token.AND:
+			// &v of a local variable that is assigned exactly once (its definition): the pointer is the value
+			if id, ok := t.X.(*ast.Ident); ok && v.ty.k == kOrd && x.assignedOnce(id.Name) {
+				return xval{s: "some " + paren(v.s), ty: &xty{k: kOpt, elem: v.ty}}
+			}
+			x.bad(e, "address of something that is not a float32 variable assigned exactly once")
 		case token.SUB:
 			if v.ty.k == kConst {
 				return xval{ty: tCon, c: -v.c, s: fmt.Sprint(-v.c)}
@@ -165,6 +171,13 @@ func (x *xtr) expr(e ast.Expr) xval {
 			}
 			return xval{s: fmt.Sprintf("Go.sliceI %s %s %s", paren(b.s), paren(lo), paren(x.intExpr(t.High))), ty: b.ty}
 		}
+	case *ast.StarExpr:
+		// *p of a pointer value (nil dereference: Go panics, here the zero value)
+		if v := x.expr(t.X); v.ty.k == kOpt {
+			x.usesRtX = true
+			x.zero(e, v.ty.elem)
+			return xval{s: "Go.deref " + paren(v.s), ty: v.ty.elem}
+		}
 	case *ast.CompositeLit:
 		return x.composite(t)
 	case *ast.CallExpr:
@@ -191,6 +204,17 @@ func (x *xtr) composite(t *ast.CompositeLit) xval {
 				x.bad(el, "struct literal without field names")
 			}
 			k, ok := kv.Key.(*ast.Ident)
+			if ok && st.drop[k.Name] {
+				// a field the spec leaves out (structSpec.Drop): its initialiser must be free of calls
+				ast.Inspect(kv.Value, func(n ast.Node) bool {
+					switch n.(type) {
+					case *ast.CallExpr, *ast.FuncLit:
+						x.bad(kv.Value, "initialiser of the dropped field %s.%s contains a call", st.name, k.Name)
+					}
+					return true
+				})
+				continue
+			}
 			if !ok || st.field(k.Name) == nil {
 				x.bad(el, "field of %s that is not modelled", st.name)
 			}
@@ -316,6 +340,14 @@ func (x *xtr) binary(t *ast.BinaryExpr) xval {
 				return xval{s: fmt.Sprintf("decide (%s < %s)", as, bs), ty: tBoolx}
 			case token.GTR:
 				return xval{s: fmt.Sprintf("decide (%s < %s)", bs, as), ty: tBoolx}
+			case token.LEQ:
+				if x.sp.FloatLE { // with spec.FloatLE the type parameter also has a decidable ≤
+					return xval{s: fmt.Sprintf("decide (%s ≤ %s)", as, bs), ty: tBoolx}
+				}
+			case token.GEQ:
+				if x.sp.FloatLE {
+					return xval{s: fmt.Sprintf("decide (%s ≤ %s)", bs, as), ty: tBoolx}
+				}
 			}
 		case kInt:
 			op := map[token.Token]string{token.LSS: "<", token.LEQ: "≤", token.GTR: ">", token.GEQ: "≥"}[t.Op]
@@ -511,7 +543,12 @@ func (x *xtr) call(c *ast.CallExpr) xval {
 				return xval{s: paren(b.s) + "." + ident(se.Sel.Name+"_cap"), ty: tInt}
 			}
 		}
-		x.bad(c, "cap of something that is not a struct field listed in structSpec.Caps")
+		if id, ok := c.Args[0].(*ast.Ident); ok {
+			if cv, ok := x.capVars[id.Name]; ok && x.env[cv] != nil && x.env[cv].k == kInt {
+				return xval{s: ident(cv), ty: tInt}
+			}
+		}
+		x.bad(c, "cap of something that is neither a struct field of structSpec.Caps nor a variable of spec.CapVars")
 	case "len":
 		need(1)
 		a := x.expr(c.Args[0])
@@ -605,6 +642,44 @@ func (x *xtr) call(c *ast.CallExpr) xval {
 	}
 	x.bad(c, "call %s", name)
 	return xval{}
+}
+
+// is the variable assigned exactly once in the whole function body (so that &v can stand for its value)?
+func (x *xtr) assignedOnce(name string) bool {
+	if x.fnBody == nil || x.params[name] {
+		return false
+	}
+	n := 0
+	ast.Inspect(x.fnBody, func(m ast.Node) bool {
+		switch t := m.(type) {
+		case *ast.AssignStmt:
+			for _, l := range t.Lhs {
+				if lvalueBase(l) == name {
+					n++
+				}
+			}
+		case *ast.IncDecStmt:
+			if lvalueBase(t.X) == name {
+				n++
+			}
+		case *ast.RangeStmt:
+			if isIdent(t.Key, name) || isIdent(t.Value, name) {
+				n += 2
+			}
+		case *ast.ValueSpec:
+			for _, id := range t.Names {
+				if id.Name == name {
+					n += 2 // `var v T` followed by assignments: not the single-definition form
+				}
+			}
+		case *ast.UnaryExpr:
+			if t.Op == token.AND && isIdent(t.X, name) {
+				// fine: taking the address does not assign
+			}
+		}
+		return true
+	})
+	return n == 1
 }
 
 // the opaque type of `v` / `v.f` / `v[i].f` …, nil if the expression is not a variable path of opaque type
